@@ -414,10 +414,19 @@ class Interp:
             self.collect_safe.append((cond, exc_factory))
             return
         if self.pure and self.qctx:
-            goal = cond
+            # guards of enclosing `and` / `or` / conditional operands that mention the bound variables sit
+            # on the path condition: they belong inside the closure, not outside it
+            names = {v.data for bound, _ in self.qctx for v in bound}
+            guards = [p for p in self.pc if smt._free_bound(p, names)]
+            goal = smt.Implies(smt.And(*guards), cond) if guards else cond
             for bound, rng in reversed(self.qctx):
                 goal = smt.ForAll(bound, smt.Implies(rng, goal))
-            self.oblige('safe/%s' % what, 'pre', goal, what)
+            saved = self.pc
+            self.pc = [p for p in self.pc if not smt._free_bound(p, names)]
+            try:
+                self.oblige('safe/%s' % what, 'pre', goal, what)
+            finally:
+                self.pc = saved
             return
         if not self.choose(cond):
             raise TargetExc(exc_factory())
